@@ -60,6 +60,9 @@ fn parse_kv(buf: &[u8]) -> Vec<(String, String)> {
 }
 
 fn unhex_s(s: &str) -> String {
+    if s == "-" {
+        return String::new();
+    }
     String::from_utf8_lossy(&crate::json::unhex(s)).into_owned()
 }
 
